@@ -359,9 +359,9 @@ def oracle_C17(spec, tr, b=None):
 
 def sensor_series(spec, tr, st):
     if st['sensor'] == 'enc':
-        return tr['els'][st['idx']]['angular position'], float(F(st['thr'][0]) * SI['AngularPosition'][st['thr'][1]])
+        return tr['els'][st['idx'] % tr['n']]['angular position'], float(F(st['thr'][0]) * SI['AngularPosition'][st['thr'][1]])
     if st['sensor'] == 'tac':
-        return tr['els'][st['idx']]['angular speed'], float(F(st['thr'][0]) * SI['AngularSpeed'][st['thr'][1]])
+        return tr['els'][st['idx'] % tr['n']]['angular speed'], float(F(st['thr'][0]) * SI['AngularSpeed'][st['thr'][1]])
     return tr['els'][0]['electric current'], float(F(st['thr'][0]) * SI['Current'][st['thr'][1]])
 
 
